@@ -335,7 +335,8 @@ def rule_scalar_range(ctx, rep, facts):
     mt = model.func('block_tokenizer.make_tokens')
     active = blockproto.default_block_types(ctx)
     for src, want in (('7. a\n9. b\n', 7), ('3) a\n1) b\n', 3), ('- a\n- b\n', None), ('* a\n', None), ('10. a\n11. b\n', 10),
-                      ('0. a\n', 0), ('123456789) a\n', 123456789), ('007. a\n', 7), ('+ a\n', None)):
+                      ('0. a\n', 0), ('123456789) a\n', 123456789), ('007. a\n', 7), ('+ a\n', None),
+                      ('\u0663. a\n', 3), ('\uff14\uff12) a\n', 42)):      # the marker pattern's \\d accepts any decimal digit
         # List.read and the List constructor, folded on the source of a list (the item constructors' inline work stubbed)
         it = Interp(model, loop_bound=16, while_bound=16)
         it.reset_run(Oracle())
